@@ -205,8 +205,11 @@ class TagFlow:
         pol = self.policy
         if isinstance(target, (ast.Tuple, ast.List)):
             n = len(target.elts)
-            for i, t in enumerate(target.elts):
-                self._assign(state, t, pol.eval_unpack(value, i, n, state, self) if value is not None else EMPTY)
+            # the right-hand side is evaluated completely before any target is bound (``a, b = b, a``)
+            pre = dict(state)
+            parts = [pol.eval_unpack(value, i, n, pre, self) if value is not None else EMPTY for i in range(n)]
+            for t, tg in zip(target.elts, parts):
+                self._assign(state, t, tg)
             return
         if isinstance(target, ast.Starred):
             self._assign(state, target.value, EMPTY)
